@@ -118,6 +118,9 @@ var _ b6.AnyCollection[any, any] = &takeCollection{}
 
 // Return a collection with the first n entries of the given collection.
 func take(_ *api.Context, collection b6.UntypedCollection, n int) (b6.Collection[any, any], error) {
+	if n < 0 {
+		n = 0
+	}
 	return b6.Collection[any, any]{AnyCollection: &takeCollection{c: collection, n: n}}, nil
 }
 
